@@ -182,14 +182,14 @@ func suiteValidateX(e *emitter, depth int) {
 		rec(nil, depth)
 	}
 	bools := []bool{false, true}
-	seqs([]string{"*", "Authorization", "authorization", "X-A", "x-a", "sec-x", "bad name", "Access-Control-Request-Method", "Author\u0130zation", "\u017fec-x"}, func(l []string) {
+	seqs([]string{"*", "Authorization", "authorization", "X-A", "x-a", "sec-x", "bad name", "Access-Control-Request-Method", "Author\u0130zation", "\u017fec-x", "X_A^b"}, func(l []string) {
 		for _, cred := range bools {
 			c := base()
 			c.RequestHeaders, c.Credentialed = l, cred
 			validateCase(e, c)
 		}
 	})
-	seqs([]string{"*", "GET", "put", "PUT", "PATCH", "patch", "CONNECT", "bad m"}, func(l []string) {
+	seqs([]string{"*", "GET", "put", "PUT", "PATCH", "patch", "CONNECT", "bad m", "po\u017ft", "opt\u0131ons"}, func(l []string) {
 		c := base()
 		c.Methods = l
 		validateCase(e, c)
@@ -237,7 +237,7 @@ func suiteValidateX(e *emitter, depth int) {
 		validateCase(e, c)
 	}
 	for _, ma := range []int{0, -1, -2, 1, 5, 86400, 86401} {
-		for _, st := range []int{0, 199, 200, 204, 299, 300, 456, 200 + 256, -56} {
+		for _, st := range []int{0, 199, 200, 204, 299, 300, 456, 200 + 256, -56, 200 + 65536, 299 + 65536, 204 - 65536, 1<<32 + 204} {
 			c := base()
 			c.MaxAgeInSeconds, c.PreflightSuccessStatus = ma, st
 			validateCase(e, c)
@@ -258,12 +258,17 @@ func suiteServeX(e *emitter, depth int) {
 		{Origins: []string{"https://a.com"}, ExtraConfig: cors.ExtraConfig{PrivateNetworkAccessInNoCORSModeOnly: true}, Credentialed: true},
 		{Origins: []string{"https://*.github.io", "https://a.com"}, ExtraConfig: cors.ExtraConfig{DangerouslyTolerateSubdomainsOfPublicSuffixes: true}},
 		{Origins: []string{"http://*.co.uk:*"}, Credentialed: true, ExtraConfig: cors.ExtraConfig{DangerouslyTolerateSubdomainsOfPublicSuffixes: true, DangerouslyTolerateInsecureOrigins: true}},
+		// `*` next to Authorization under credentialed access, in both orders, and next to a discrete name
+		{Origins: []string{"https://a.com"}, Credentialed: true, Methods: []string{"PUT"}, RequestHeaders: []string{"Authorization", "*"}},
+		{Origins: []string{"https://a.com"}, Credentialed: true, Methods: []string{"PUT"}, RequestHeaders: []string{"*", "Authorization", "X-A"}},
+		// a single pattern with an arbitrary port (its text is not an origin)
+		{Origins: []string{"https://a.com:*"}, Credentialed: true, Methods: []string{"PUT"}, RequestHeaders: []string{"X-A"}, ResponseHeaders: []string{"X-B"}},
 	}
 	type opt struct {
 		present bool
 		v       []string
 	}
-	origins := []opt{{false, nil}, {true, []string{"https://a.com"}}, {true, []string{"https://x.b.com:8080"}}, {true, []string{"https://evil.com"}}, {true, []string{"https://foo.github.io"}}, {true, []string{"http://foo.co.uk:81"}}, {true, []string{"https://a.com/"}}, {true, []string{""}}, {true, []string{}}}
+	origins := []opt{{false, nil}, {true, []string{"https://a.com"}}, {true, []string{"https://x.b.com:8080"}}, {true, []string{"https://evil.com"}}, {true, []string{"https://foo.github.io"}}, {true, []string{"http://foo.co.uk:81"}}, {true, []string{"https://a.com/"}}, {true, []string{""}}, {true, []string{}}, {true, []string{"https://a.com:*"}}, {true, []string{"https://a.com:8080"}}}
 	acrms := []opt{{false, nil}, {true, []string{""}}, {true, []string{}}, {true, []string{"GET"}}, {true, []string{"PUT"}}, {true, []string{"put"}}, {true, []string{"DELETE"}}, {true, []string{"PUT", "GET"}}}
 	acrhs := []opt{{false, nil}, {true, []string{}}, {true, []string{""}}, {true, []string{"x-a"}}, {true, []string{"authorization,x-a"}}, {true, []string{"x-a", "authorization"}}, {true, []string{" x-a\t"}}, {true, []string{"x-c"}}, {true, []string{"X-A"}}}
 	acrpns := []opt{{false, nil}, {true, []string{"true"}}, {true, []string{"false"}}}
@@ -303,8 +308,13 @@ func suiteServeX(e *emitter, depth int) {
 
 // historyx: every sequence of up to `depth` operations from {SetDebug(true), SetDebug(false), Reconfigure(nil),
 // Reconfigure(A), Reconfigure(B), Reconfigure(invalid), Reconfigure(Config())}, from the zero value and from
-// NewMiddleware(A), with the same four observations after every operation: Config(), a preflight that fails at the
-// method step (shows the debug mode), a preflight that succeeds under A, an actual request.
+// NewMiddleware(A), with the same observations after every operation: Config(), a preflight that fails at the
+// method step (shows the debug mode), a preflight that succeeds under A, the same preflight with one more ACRH line
+// naming a header nobody allows (a verdict must not depend on the preflight answered just before), an actual request.
+// A second family does the same over configurations that are *relatives* of one another (same Origins with one
+// tolerance switch flipped, which makes the configuration invalid; a list of the same length made of the old patterns
+// with one repeated; the same list under other flags): what a Reconfigure that reuses parts of the configuration in
+// force would get wrong.
 func suiteHistoryX(e *emitter, depth int) {
 	cfgA := cors.Config{Origins: []string{"https://a.com"}, Credentialed: true, Methods: []string{"PUT"}, RequestHeaders: []string{"X-A"}, ResponseHeaders: []string{"X-B"}, MaxAgeInSeconds: 30}
 	cfgB := cors.Config{Origins: []string{"*"}, Methods: []string{"*"}, RequestHeaders: []string{"*", "Authorization"}}
@@ -312,12 +322,42 @@ func suiteHistoryX(e *emitter, depth int) {
 	probes := []request{
 		{method: "OPTIONS", hdrs: []kv{{"Origin", []string{"https://a.com"}}, {"Access-Control-Request-Method", []string{"NOBODY"}}}},
 		{method: "OPTIONS", hdrs: []kv{{"Origin", []string{"https://a.com"}}, {"Access-Control-Request-Method", []string{"PUT"}}, {"Access-Control-Request-Headers", []string{"x-a"}}}},
+		{method: "OPTIONS", hdrs: []kv{{"Origin", []string{"https://a.com"}}, {"Access-Control-Request-Method", []string{"PUT"}}, {"Access-Control-Request-Headers", []string{"x-a", "x-evil"}}}},
 		{method: "GET", hdrs: []kv{{"Origin", []string{"https://a.com"}}}},
 	}
-	ops := []string{"D1", "D0", "RN", "RA", "RB", "RI", "RC"}
+	historyXFamily(e, depth, "x", &cfgA, []string{"D1", "D0", "RN", "RA", "RB", "RI", "RC"},
+		map[string]*cors.Config{"RA": &cfgA, "RB": &cfgB, "RI": &cfgI}, probes)
+
+	tol := cors.ExtraConfig{DangerouslyTolerateSubdomainsOfPublicSuffixes: true, DangerouslyTolerateInsecureOrigins: true}
+	cfgQ := cors.Config{Origins: []string{"https://a.com", "http://b.com", "https://*.co.uk"}, Credentialed: true, Methods: []string{"PUT"}, RequestHeaders: []string{"X-A"}, ExtraConfig: tol}
+	cfgQ1 := cfgQ // same Origins, public-suffix tolerance withdrawn: invalid
+	cfgQ1.ExtraConfig.DangerouslyTolerateSubdomainsOfPublicSuffixes = false
+	cfgQ2 := cfgQ // same Origins, insecure-origin tolerance withdrawn: invalid under credentialed access
+	cfgQ2.ExtraConfig.DangerouslyTolerateInsecureOrigins = false
+	cfgQ3 := cfgQ // a list of the same length made of old patterns, one repeated: b.com is no longer allowed
+	cfgQ3.Origins = []string{"https://a.com", "https://a.com", "https://*.co.uk"}
+	cfgQ4 := cfgQ // the same Origins in another order, anonymous, with private-network access
+	cfgQ4.Origins = []string{"https://*.co.uk", "http://b.com", "https://a.com"}
+	cfgQ4.Credentialed = false
+	cfgQ4.ExtraConfig.PrivateNetworkAccess = true
+	probesQ := []request{
+		{method: "OPTIONS", hdrs: []kv{{"Origin", []string{"http://b.com"}}, {"Access-Control-Request-Method", []string{"NOBODY"}}}},
+		{method: "OPTIONS", hdrs: []kv{{"Origin", []string{"http://b.com"}}, {"Access-Control-Request-Method", []string{"PUT"}}, {"Access-Control-Request-Headers", []string{"x-a"}}, {"Access-Control-Request-Private-Network", []string{"true"}}}},
+		{method: "GET", hdrs: []kv{{"Origin", []string{"https://x.co.uk"}}}},
+		{method: "GET", hdrs: []kv{{"Origin", []string{"http://b.com"}}}},
+	}
+	d := depth
+	if d > 3 {
+		d = 3
+	}
+	historyXFamily(e, d, "y", &cfgQ, []string{"D1", "RN", "RQ", "RQ1", "RQ2", "RQ3", "RQ4"},
+		map[string]*cors.Config{"RQ": &cfgQ, "RQ1": &cfgQ1, "RQ2": &cfgQ2, "RQ3": &cfgQ3, "RQ4": &cfgQ4}, probesQ)
+}
+
+func historyXFamily(e *emitter, depth int, prefix string, startCfg *cors.Config, ops []string, cfgs map[string]*cors.Config, probes []request) {
 	var run func(start int, seq []string)
 	run = func(start int, seq []string) {
-		id := "x" + strconv.Itoa(start)
+		id := prefix + strconv.Itoa(start)
 		var m *cors.Middleware
 		var shadow *decider
 		observe := func() {
@@ -353,7 +393,7 @@ func suiteHistoryX(e *emitter, depth int) {
 			registerLongLived(m)
 			e.emit("h.zero\t"+id, "ok")
 		} else {
-			c := cfgA
+			c := *startCfg
 			line := "h.new\t" + id + "\t" + encConfig(&c) + "\t" + oracleFor(c.Origins)
 			mm, err := cors.NewMiddleware(c)
 			if err != nil {
@@ -373,18 +413,15 @@ func suiteHistoryX(e *emitter, depth int) {
 				e.emit("h.debug\t"+id+"\t"+encBool(op == "D1"), "ok")
 			case "RN":
 				reconf(nil, nil)
-			case "RA":
-				reconf(&cfgA, func() { shadow = newDecider(&cfgA) })
-			case "RB":
-				reconf(&cfgB, func() { shadow = newDecider(&cfgB) })
-			case "RI":
-				reconf(&cfgI, func() {})
 			case "RC":
 				if cfg := m.Config(); cfg == nil {
 					reconf(nil, nil)
 				} else {
 					reconf(cfg, func() {})
 				}
+			default:
+				c := cfgs[op]
+				reconf(c, func() { shadow = newDecider(c) })
 			}
 			observe()
 		}
